@@ -4598,9 +4598,10 @@ class Qube(object):
             else:
                 self_values = self._values_
 
-                # An array should be read-only upon broadcast
+                # An array should be read-only upon broadcast, and so should the
+                # derivatives of a read-only object
                 if _protected:
-                    self.as_readonly(recursive=False)
+                    self.as_readonly()
 
             new_values = np.broadcast_to(self_values, shape + self._item_)
 
@@ -4610,9 +4611,10 @@ class Qube(object):
             else:
                 new_mask = np.broadcast_to(self._mask_, shape)
 
-                # An array should be read-only upon broadcast
+                # An array should be read-only upon broadcast, and so should the
+                # derivatives of a read-only object
                 if _protected:
-                    self.as_readonly(recursive=False)
+                    self.as_readonly()
 
             # Construct the new object
             obj = Qube.__new__(type(self))
